@@ -275,7 +275,9 @@ impl Interp {
             PUT => {
                 if let Some(o) = self.pick_obj(r, &[ObjType::Map, ObjType::Table], s.a) {
                     let k = self.key(s.b);
-                    done!(self.reps[r].doc.put(&o, k, scalar(s.c, s.n, s.d)));
+                    let v = scalar(s.c, s.n, s.d);
+                    self.note_noop_resolution(r, &o, k, &v);
+                    done!(self.reps[r].doc.put(&o, k, v));
                 }
             }
             DELETE => {
@@ -330,7 +332,9 @@ impl Interp {
                 if let Some(o) = self.pick_obj(r, &[ObjType::List], s.a) {
                     let len = self.reps[r].doc.length(&o);
                     if len > 0 {
-                        done!(self.reps[r].doc.put(&o, sel(s.b, len), scalar(s.c, s.n, s.d)));
+                        let v = scalar(s.c, s.n, s.d);
+                        self.note_noop_resolution(r, &o, sel(s.b, len), &v);
+                        done!(self.reps[r].doc.put(&o, sel(s.b, len), v));
                     }
                 }
             }
@@ -377,7 +381,9 @@ impl Interp {
                     let b = bounds(&self.reps[r].doc, &o);
                     if b.len() > 1 {
                         let i = sel(s.b, b.len() - 1);
-                        done!(self.reps[r].doc.put(&o, b[i], scalar(s.c, s.n, s.d)));
+                        let v = scalar(s.c, s.n, s.d);
+                        self.note_noop_resolution(r, &o, b[i], &v);
+                        done!(self.reps[r].doc.put(&o, b[i], v));
                     }
                 }
             }
@@ -644,6 +650,20 @@ impl Interp {
             _ => {}
         }
         out
+    }
+
+    /// a put whose value equals the current winner of a conflicted register resolves the conflict
+    /// without any visible change (known finding C09 noop conflict resolution): count it
+    fn note_noop_resolution<P: Into<automerge::Prop>>(&mut self, r: usize, o: &ObjId, prop: P, v: &ScalarValue) {
+        if let Ok(all) = self.reps[r].doc.get_all(o, prop) {
+            if all.len() > 1 {
+                if let Some((automerge::Value::Scalar(w), _)) = all.last() {
+                    if w.as_ref() == v {
+                        self.class("noop_conflict_resolution");
+                    }
+                }
+            }
+        }
     }
 
     fn register(&mut self, id: ObjId, t: ObjType) {
